@@ -29,7 +29,8 @@ _active: "VClock | None" = None
 
 
 class VClock:
-    def __init__(self, *, drift_per_read: int = 0) -> None:
+    def __init__(self, *, drift_per_read: int = 0, wall: str = "jump") -> None:
+        self.wall_mode = wall       # "jump": erratic; "frozen": constant; "back": runs backwards
         self.ticks = BASE_TICKS
         self.mono_reads = 0
         self.wall_reads = 0
@@ -63,6 +64,10 @@ class VClock:
     # -- wall clock: jumps on every read ------------------------------------
     def wall(self) -> float:
         self.wall_reads += 1
+        if self.wall_mode == "frozen":
+            return 1767225600.0
+        if self.wall_mode == "back":
+            return 1767225600.0 - 1000.0 * self.wall_reads
         x = self._wall_state
         x ^= (x << 13) & 0xFFFFFFFFFFFFFFFF
         x ^= x >> 7
